@@ -150,6 +150,27 @@ theorem schedule_nonneg_cumulative (f : FileIn) (sel : List Int) (pm : PortMap)
     have := this.2 i hi
     simpa [schedule] using this
 
+/-- The trusted assumption about `sort.Stable`, made exact: *any* rearrangement `out` of the collected events
+    that is sorted by time and keeps, for every time value, the events of that instant in collection order (that
+    is what "stable sort" promises) is the model's send sequence. So nothing about the algorithm inside
+    `sort.Stable` is assumed beyond stability. -/
+theorem play_is_the_stable_sort (f : FileIn) (sel : List Int) (pm : PortMap) (out : List PlayEv)
+    (h : StableSortOf (fun x => x.ev.time) (collect f sel pm) out) : out = play f sel pm :=
+  stable_sort_unique _ _ h
+
+example : StableSortOf (fun x => x.ev.time) (collect [[(5, [0x90, 1, 1])], [(5, [0x91, 1, 1]), (2, [0x91, 2, 2])]] [] [(-1, 0)])
+    [⟨⟨1, 1, 2, [0x91, 2, 2]⟩, 0⟩, ⟨⟨0, 0, 5, [0x90, 1, 1]⟩, 0⟩, ⟨⟨1, 0, 5, [0x91, 1, 1]⟩, 0⟩] := by
+  constructor
+  · decide
+  · intro k
+    by_cases h5 : k = 5
+    · subst h5; decide
+    · by_cases h2 : k = 2
+      · subst h2; decide
+      · have e5 : ((5 : Int) == k) = false := by simp; omega
+        have e2 : ((2 : Int) == k) = false := by simp; omega
+        simp [collect, doAll, doFrom, doTrack, enumFrom, collectOne, isPlayable, isMeta, typeKnown, outFor, List.lookup, e5, e2]
+
 /-- `MultiPlay` with an empty port map and `Play` with a port that cannot be opened send nothing;
     `Play(out)` is `MultiPlay` with `out` as the default port. -/
 theorem error_sends_nothing (f : FileIn) (sel : List Int) (p : Nat) :
